@@ -336,6 +336,12 @@ class ChainWorld(World):
         return bytes(Name.to_bytes(self.pki.names[label]))
 
     def apply_deviation_to_store(self):
+        if self.scenario.get('crowd_loss'):
+            # every author's certificate is lost once (a congested link) and can be fetched from then on
+            for label in list(self.pki.names):
+                if label.startswith('author:') and '~' not in label:
+                    self.policy[self.label_name(label)] = ['lost', 1]
+            self.stats['fault.first_fetch_of_every_certificate_lost'] += 1
         dev = self.scenario.get('deviation') or {}
         k = dev.get('kind')
         if k == 'forged-cert':
@@ -489,6 +495,19 @@ class ChainWorld(World):
             self.app.shutdown()
 
     def op_validate(self, op):
+        if self.scenario.get('serial'):
+            # one long-lived consumer task validates the packets one after another (state kept per task - context
+            # variables - accumulates there; a task per packet would hide it)
+            if getattr(self, '_serial_q', None) is None:
+                self._serial_q = asyncio.Queue()
+
+                async def runner():
+                    while True:
+                        nxt = await self._serial_q.get()
+                        await self._validate(nxt)
+                self.harness_tasks.add(self.loop.create_task(runner()))
+            self._serial_q.put_nowait(op)
+            return
         t = self.loop.create_task(self._validate(op))
         self.harness_tasks.add(t)
         if op.get('cancel_after_us') is not None:
@@ -845,6 +864,14 @@ def generate(rng, seed, tier='quick'):
             t += 1_000_000
     two_roots = depth == 2 and rng.random() < 0.2 and not crowd
     extra = {}
+    if crowd:
+        if rng.random() < 0.6:
+            extra['serial'] = True
+        if rng.random() < 0.5:
+            extra['crowd_loss'] = True
+            for o in ops:
+                if o['op'] == 'validate':
+                    o['at'] = o['at'] * 6       # a lost fetch takes a lifetime
     fetch_delay = rng.choice([0, 100, 5000])
     vals = [o for o in ops if o['op'] == 'validate']
     if vals and depth >= 2 and rng.random() < 0.12 and not deviation:
